@@ -285,6 +285,9 @@ def closure(facts):
                 new += [T.lt(i, T.CURVE_N), T.not_(T.eq(T.const(0), i)), T.lt(T.const(0), i)]
             if T.is_op(f, 'LT') and f[2] == T.const(0):
                 new.append(T.not_(T.eq(T.const(0), f[3])))
+            # canonical spelling of 0 < x for integers: not (x < 1)
+            if T.is_op(f, 'NOT') and T.is_op(f[2], 'LT') and T.is_const(f[2][3]) and isinstance(f[2][3][1], int) and f[2][3][1] >= 1:
+                new.append(T.not_(T.eq(T.const(0), f[2][2])))
             # an explicit range check is as good as the library's: 32 bytes, 0 < int(x) < n
             if T.is_op(f, 'LT') and f[3] == T.CURVE_N and T.is_op(f[2], 'INT') and f[2][3] == BIG:
                 x, ix = f[2][2], f[2]
